@@ -11,6 +11,7 @@ import (
 	"crypto/sha256"
 	"encoding/binary"
 	"fmt"
+	"strings"
 	"sync"
 	"testing"
 	"time"
@@ -87,18 +88,19 @@ type delivery struct {
 }
 
 type world struct {
-	c       *kernel.Ctx
-	n       int
-	keys    []*k1.PrivateKey
-	ids     []peer.ID
-	idx     map[peer.ID]int
-	faulty  int // -1: none
-	session []byte
+	c          *kernel.Ctx
+	n          int
+	keys       []*k1.PrivateKey
+	ids        []peer.ID
+	idx        map[peer.ID]int
+	faulty     int // -1: none
+	urlVariant int
+	session    []byte
 
 	mu         sync.Mutex
 	signed     []map[string]bool // per member: digests (hex) it produced a signature for in this session
 	deliveries []delivery
-	observed   []*pb.BCastMessage // fully signed messages the faulty member received (relay material)
+	observed   []*pb.BCastMessage  // fully signed messages the faulty member received (relay material)
 	sigs       map[string][][]byte // digest -> signatures by member index collected by the faulty member
 }
 
@@ -138,6 +140,7 @@ func body(c *kernel.Ctx) {
 	checkYields := verifrt.Intn("cfg", 4)
 	checkSleep := time.Duration([]int{0, 0, 5, 25}[verifrt.Intn("cfg", 4)]) * time.Millisecond
 	lateIDs := []int{0, 0, 6, 14}[verifrt.Intn("cfg", 4)]
+	w.urlVariant = []int{0, 0, 1, 2}[verifrt.Intn("cfg", 4)]
 	mkNet := func(session []byte, record bool) (*simnet.Net, []*bcast.Component, *simnet.Host) {
 		net := simnet.New()
 		net.Fate = func(e *simnet.Envelope) simnet.Fate {
@@ -313,24 +316,46 @@ func body(c *kernel.Ctx) {
 
 func (w *world) onDeliver(receiver int, sender peer.ID, id, payload string) {
 	c := w.c
-	a, _ := anypb.New(wrapperspb.String(payload))
-	d := string(hashAny(w.session, id, a))
+	// the callback sees the decoded payload; on the wire it may have travelled under any type-URL prefix that
+	// decodes to it: a member "signed exactly that payload" if it signed one of those wire forms
+	var ds []string
+	for _, u := range []string{"type.googleapis.com/google.protobuf.StringValue", "dkg.example.org/google.protobuf.StringValue", "google.protobuf.StringValue"} {
+		a, _ := anypb.New(wrapperspb.String(payload))
+		a.TypeUrl = u
+		ds = append(ds, string(hashAny(w.session, id, a)))
+	}
 	w.mu.Lock()
 	defer w.mu.Unlock()
 	verifrt.Note("deliver r=%d sender=%d id=%s payload=%s", receiver, w.idx[sender], id, payload)
 	c.Progress()
-	for i := 0; i < w.n; i++ {
-		if i == w.faulty {
-			continue
-		}
-		if !w.signed[i][d] {
-			who := "member"
-			if i == receiver {
-				who = "the receiver itself,"
+	// there must be ONE wire form that every member signed
+	best, missing := -1, -1
+	for f := range ds {
+		miss, n := -1, 0
+		for i := 0; i < w.n; i++ {
+			if i == w.faulty {
+				continue
 			}
-			c.Violate("C13", "delivered-unsigned", "delivered-payload-not-signed-by-every-member", "member %d delivered (sender %d, id %s, payload %q) although %s %d never signed exactly that payload for that id in this session", receiver, w.idx[sender], id, payload, who, i)
+			if w.signed[i][ds[f]] {
+				n++
+			} else if miss < 0 {
+				miss = i
+			}
+		}
+		if miss < 0 {
+			best, missing = f, -1
 			break
 		}
+		if n > best {
+			best, missing = n, miss
+		}
+	}
+	if missing >= 0 {
+		who := "member"
+		if missing == receiver {
+			who = "the receiver itself,"
+		}
+		c.Violate("C13", "delivered-unsigned", "delivered-payload-not-signed-by-every-member", "member %d delivered (sender %d, id %s, payload %q) although %s %d never signed exactly that payload for that id in this session", receiver, w.idx[sender], id, payload, who, missing)
 	}
 	for _, o := range w.deliveries {
 		if o.sender == sender && o.id == id && o.payload != payload {
@@ -371,8 +396,20 @@ func (w *world) askSigAt(net *simnet.Net, to int, id string, a *anypb.Any, delay
 	return resp.GetSignature()
 }
 
-func (w *world) collect(net *simnet.Net, session []byte, id string, payload string, who []int) (*anypb.Any, [][]byte) {
+// advAny wraps a payload of the faulty member. In a seeded third of the runs its second payload ("...-v2") is
+// wrapped under another type-URL prefix (or none): decoding only looks at the name after the last slash, so the
+// envelope stays well-formed while its bytes - and whatever is keyed by them - differ.
+func (w *world) advAny(payload string) *anypb.Any {
 	a, _ := anypb.New(wrapperspb.String(payload))
+	if w.urlVariant > 0 && strings.HasSuffix(payload, "-v2") {
+		a.TypeUrl = []string{"", "dkg.example.org/google.protobuf.StringValue", "google.protobuf.StringValue"}[w.urlVariant]
+		verifrt.Probe("adv:type-url-variant")
+	}
+	return a
+}
+
+func (w *world) collect(net *simnet.Net, session []byte, id string, payload string, who []int) (*anypb.Any, [][]byte) {
+	a := w.advAny(payload)
 	sigs := make([][]byte, w.n)
 	own, _ := k1util.Sign(w.keys[w.faulty], hashAny(session, id, a))
 	sigs[w.faulty] = own
@@ -396,7 +433,7 @@ func (w *world) collect(net *simnet.Net, session []byte, id string, payload stri
 
 // collectParallel asks every member at once (one request goroutine per member).
 func (w *world) collectParallel(net *simnet.Net, session []byte, id string, payload string, who []int, delay time.Duration) (*anypb.Any, [][]byte) {
-	a, _ := anypb.New(wrapperspb.String(payload))
+	a := w.advAny(payload)
 	sigs := make([][]byte, w.n)
 	own, _ := k1util.Sign(w.keys[w.faulty], hashAny(session, id, a))
 	sigs[w.faulty] = own
@@ -601,7 +638,7 @@ func (w *world) adversary(ctx context.Context, netA *simnet.Net, fhA *simnet.Hos
 				}
 			}
 		case 7: // unsigned / self-signed only
-			a, _ := anypb.New(wrapperspb.String(p1))
+			a := w.advAny(p1)
 			own, _ := k1util.Sign(w.keys[w.faulty], hashAny(w.session, id, a))
 			sigs := make([][]byte, w.n)
 			for k := range sigs {
